@@ -17,7 +17,8 @@ Api    == <<"api">>
 Apiary == <<"apiary">>
 ApiV1  == <<"api", "v1">>
 
-HostSets == << {Dflt}, {AD}, {WD}, {BAD}, {AD, BAD}, {WD, AD}, {D1} >>
+V6   == <<"::1">>      \* an IPv6 literal (bound both as "::1" and as "[::1]")
+HostSets == << {Dflt}, {AD}, {WD}, {BAD}, {AD, BAD}, {WD, AD}, {D1}, {V6} >>
 PathSets == << {Root}, {Api}, {Apiary}, {ApiV1}, {Root, Api}, {Api, ApiV1} >>
 TlsOpts  == << [tls |-> FALSE, redirect |-> TRUE, acme |-> FALSE],
                [tls |-> TRUE,  redirect |-> TRUE, acme |-> FALSE],
